@@ -93,6 +93,8 @@ struct Stream {
 #[derive(Default)]
 pub struct Counters {
     pub c: BTreeMap<&'static str, u64>,
+    /// interleaving hash of the execution (task-poll order and wire-message order), set by the runner
+    pub run_hash: u64,
 }
 
 impl Counters {
